@@ -12,6 +12,7 @@ import PygProofs.Lemmas.UnlistLemmas
 import PygProofs.Lemmas.PivotLemmas
 import PygProofs.Lemmas.UnpivotLemmas
 import PygProofs.Lemmas.JoinCols
+import Std.Data.String.ToInt
 
 namespace Pyg.Props.C11
 open Pyg
@@ -1074,5 +1075,47 @@ example : ∃ σ : List Nat, σ.Perm (List.range 3) ∧
 #guard (match Table.listby [("a", [.int 1, .flt 4, .int 2, .int 1]), ("b", [.int 1, .int 2, .int 3, .int 4])] ["a"] >>= VTable.unlist with
   | .ok u => u == [("a", [.cell (.int 1), .cell (.int 1), .cell (.int 1), .cell (.int 2)]), ("b", [.cell (.int 1), .cell (.int 2), .cell (.int 4), .cell (.int 3)])]
   | _ => false)
+
+/-- **"aggregating duplicates with the supplied function"**: `pivot_cell` for ANY aggregator `f : List Cell → Val` (`Agg.fn f`), not only the four
+the wire can spell: the cell is `None` iff no row has that x key and y value, else `f` of the z values of exactly those rows in original order. -/
+theorem pivot_cell_fn (t : Table) (x : List String) (y z : String) (f : List Cell → Val) (zs : List Cell)
+    (labels : List String)
+    (hn : t.nrows ≠ 0) (hx : x ≠ [])
+    (hcols : ∀ k ∈ x ++ [y], (t.col? k).isSome = true) (hz : t.col? z = some zs) :
+    let xyg := listbyG (xyKeys t.nrows (xCells t x) (yCell t y))
+    let xg := listbyG (xyg.map fun g => xPart x.length g.1)
+    let ys := listbyG ((xyg.map fun g => tupleGet x.length g.1).map fun v => .tuple [v])
+    ys.mapM (fun g => yLabel (tupleGet 0 g.1)) = some labels → (x ++ labels).Nodup →
+    t.pivot x y z (.fn f) = some (.ok (keyColsOf x xg ++
+      (labels.zip ys).map fun p => (p.1, xg.map fun gx =>
+        let rows := (List.range t.nrows).filter fun i =>
+          cmp (.tuple (xCells t x i)) gx.1 == .eq && cmp (.tuple [yCell t y i]) p.2.1 == .eq
+        if rows = [] then .cell .none else f (rows.map fun i => zs.getD i .none)))) :=
+  pivot_cell t x y z (.fn f) zs labels hn hx hcols hz
+
+/-- **pivot of a table without rows** (repaired code, fix G3): the x columns, no row, no y column — and `unpivot` of it is the empty table over
+`x ++ [y, z]`: the round trip of an empty table is empty. -/
+theorem pivot_empty (t : Table) (x : List String) (y z : String) (agg : Agg)
+    (hn : t.nrows = 0) (hx : x ≠ []) (hxn : x.Nodup) (hcols : ∀ k ∈ x, (t.col? k).isSome = true) :
+    t.pivot x y z agg = some (.ok (x.map fun k => (k, []))) ∧
+    VTable.unpivot (x.map fun k => (k, [])) x y z = .ok ((x.map fun k => (k, [])) ++ [(y, []), (z, [])]) := by
+  have hx' : x.isEmpty = false := by cases x <;> simp_all
+  constructor
+  · have hall : (x.all fun k => (t.col? k).isSome) = true := List.all_eq_true.2 hcols
+    simp [Table.pivot, hn, hx', hxn, hall]
+  · have hnr : VTable.nrows (x.map fun k => (k, ([] : List Val))) = 0 := by
+      cases x with
+      | nil => exact absurd rfl hx
+      | cons a as => rfl
+    simp only [VTable.unpivot, hnr, List.range_zero, List.flatMap_nil, bind, Except.bind, pure, Except.pure]
+    rw [mapM_ok_of_forall (g := fun k => (k, ([] : List Val)))]
+    intro k hk
+    rw [find?_named (fun _ => ([] : List Val)) k x, if_pos hk]
+
+/-- **`str` is injective on ints** (`Int.repr_inj`), so INT y values always give distinct column keys: `labelsInjective_int` without its
+printing hypothesis -/
+theorem labelsInjective_ints (t : Table) (y : String) (hint : ∀ i, i < t.nrows → ∃ n, t.jcellAt y i = .int n) :
+    LabelsInjective t y :=
+  labelsInjective_int t y hint fun _ _ _ _ h => Int.repr_inj.1 h
 
 end Pyg.Props.C11
